@@ -32,6 +32,8 @@ pub mod common;
 pub mod c01;
 pub mod c02;
 pub mod c03;
+#[cfg(feature = "full")]
+pub mod c04;
 pub mod c05;
 pub mod c06;
 pub mod c07;
@@ -40,8 +42,12 @@ pub mod c10;
 pub mod c11;
 pub mod c12;
 pub mod c13;
+#[cfg(feature = "full")]
+pub mod c14;
 pub mod c15;
 pub mod c17;
+#[cfg(feature = "full")]
+pub mod c18;
 pub mod c19;
 pub mod c20;
 
@@ -50,6 +56,12 @@ pub fn get(id: &str) -> Option<PropDef> {
         "C01" => Some(c01::def()),
         "C02" => Some(c02::def()),
         "C03" => Some(c03::def()),
+        #[cfg(feature = "full")]
+        "C04" => Some(c04::def()),
+        #[cfg(feature = "full")]
+        "C14" => Some(c14::def()),
+        #[cfg(feature = "full")]
+        "C18" => Some(c18::def()),
         "C05" => Some(c05::def()),
         "C06" => Some(c06::def()),
         "C07" => Some(c07::def()),
